@@ -151,7 +151,7 @@ func registerTimeModels(e *Engine) {
 			}
 			return TupleV{StrC(s), NilIface}
 		}
-		if t.Op == "uf" && t.S == "qe" {
+		if t.Op == "uf" && escapeUF[t.S] {
 			return TupleV{t.Args[0], NilIface}
 		}
 		if x.Branch(UFSort("unqe.ok", SBool, t)) {
@@ -201,18 +201,60 @@ func registerTimeModels(e *Engine) {
 		if x.attr(t, "badurl") {
 			return TupleV{NilPtr, x.libError("url.Parse")}
 		}
-		// symbolic text: the parser fails, or returns arbitrary components
-		// (the string -> components mapping is the library's and is not encoded)
-		x.unreplayable = append(x.unreplayable, "url.Parse of a string the harness did not build from components")
+		// symbolic text. Stated bound: the parser fails, or the text has one of two
+		// plain shapes on which Go's parser is transcribed exactly -
+		//   scheme "://" [userinfo "@"] host [":" port] [path] ["?" query] ["#" fragment]
+		//   path ["?" query] ["#" fragment]            (path empty or starting with "/")
+		// over alphabets without percent-escapes and control characters. Other texts a
+		// parser accepts (opaque URLs, escapes, IPv6 literals, "//host" references) are
+		// outside the claim.
 		name := "urlparse(" + t.Key() + ")"
-		if !x.Branch(x.sym(name+".ok", SBool)) {
+		x.bounds["shapes of URLs parsed from symbolic text (absolute, path-only)"] = 2
+		shape := x.Choose(name+".shape", 3)
+		if shape == 0 {
+			// texts the parser rejects are represented by those holding a DEL control character
+			x.assume(Contains(t, StrC("\x7f")))
 			return TupleV{NilPtr, x.libError("url.Parse")}
 		}
-		for _, f := range []string{"Scheme", "Opaque", "Host", "Path", "RawPath", "RawQuery", "Fragment", "RawFragment"} {
-			x.setField(p, ut, f, x.sym(name+"."+f, SStr))
+		const unres = `(re.range "A" "Z") (re.range "a" "z") (re.range "0" "9") (str.to_re "-") (str.to_re ".") (str.to_re "_") (str.to_re "~")`
+		pathT := x.sym(name+".Path", SStr)
+		hasQ, q := x.sym(name+".hasQuery", SBool), x.sym(name+".RawQuery", SStr)
+		hasF, f := x.sym(name+".hasFragment", SBool), x.sym(name+".Fragment", SStr)
+		x.assume(InRe(pathT, `(re.opt (re.++ (str.to_re "/") (re.* (re.union `+unres+` (str.to_re "/") (str.to_re "!") (str.to_re "$") (str.to_re "&") (str.to_re "'") (str.to_re "(") (str.to_re ")") (str.to_re "*") (str.to_re "+") (str.to_re ",") (str.to_re ";") (str.to_re "=") (str.to_re ":") (str.to_re "@")))))`))
+		x.assume(InRe(q, `(re.* (re.union `+unres+` (str.to_re "/") (str.to_re "?") (str.to_re "&") (str.to_re "=") (str.to_re "+") (str.to_re ":") (str.to_re "@") (str.to_re ";") (str.to_re ",")))`))
+		x.assume(InRe(f, `(re.* (re.union `+unres+` (str.to_re "/") (str.to_re "?") (str.to_re "&") (str.to_re "=") (str.to_re "+") (str.to_re ":") (str.to_re "@")))`))
+		x.assume(Implies(Not(hasQ), Eq(q, StrC(""))))
+		x.assume(Implies(Not(hasF), Eq(f, StrC(""))))
+		tail := Concat(pathT, Ite(hasQ, Concat(StrC("?"), q), StrC("")), Ite(hasF, Concat(StrC("#"), f), StrC("")))
+		scheme, host := StrC(""), StrC("")
+		var user Value = NilPtr
+		if shape == 1 {
+			scheme = x.sym(name+".Scheme", SStr)
+			host = x.sym(name+".Host", SStr)
+			x.assume(InRe(scheme, `(re.++ (re.range "a" "z") (re.* (re.union (re.range "a" "z") (re.range "0" "9") (str.to_re "+") (str.to_re "-") (str.to_re "."))))`))
+			x.assume(InRe(host, `(re.++ (re.* (re.union (re.range "A" "Z") (re.range "a" "z") (re.range "0" "9") (str.to_re "-") (str.to_re "."))) (re.opt (re.++ (str.to_re ":") (re.* (re.range "0" "9")))))`))
+			userTxt := StrC("")
+			if x.Branch(x.sym(name+".hasUser", SBool)) {
+				u := x.sym(name+".User", SStr)
+				x.assume(InRe(u, `(re.+ (re.union `+unres+`))`))
+				userTxt = Concat(u, StrC("@"))
+				uit := x.E.namedType("net/url", "Userinfo")
+				uc := x.newCell(zeroValue(uit), uit, "url.Userinfo")
+				user = &Pointer{Cell: uc}
+				x.setField(user.(*Pointer), uit, "username", u)
+			}
+			x.assume(Eq(t, Concat(scheme, StrC("://"), userTxt, host, tail)))
+		} else {
+			x.assume(Eq(t, tail))
 		}
-		x.setField(p, ut, "ForceQuery", x.sym(name+".ForceQuery", SBool))
-		x.parsedURLs = append(x.parsedURLs, name)
+		x.setField(p, ut, "Scheme", scheme)
+		x.setField(p, ut, "Host", host)
+		x.setField(p, ut, "User", user)
+		x.setField(p, ut, "Path", pathT)
+		x.setField(p, ut, "RawQuery", q)
+		x.setField(p, ut, "Fragment", f)
+		x.setField(p, ut, "ForceQuery", And(hasQ, Eq(q, StrC(""))))
+		x.urlInfos[c] = &urlInfo{shaped: true}
 		return TupleV{p, NilIface}
 	}
 
